@@ -83,98 +83,90 @@ class Spy:
 def make_spy_factory(base_cls, spy):
     ue = pathio.universal_exception
 
+    @ue
+    async def _hit(name, arg=None):
+        # an injected fault is raised HERE and translated as a real backend would translate its own failure; what the
+        # wrapped backend method raises afterwards is left exactly as that method (with its own decorators) raises it
+        await spy.hit(name, arg)
+
     class SpyLister(AbstractAsyncLister):
         def __init__(self, inner, path, timeout=None):
             super().__init__(timeout=timeout)
             self.inner = inner
             self.path = path
 
-        @ue
         async def __anext__(self):
-            await spy.hit("list", self.path)
+            await _hit("list", self.path)
             return await self.inner.__anext__()
 
     class SpyIO(base_cls):
         _spy = spy
 
-        @ue
         async def exists(self, path):
-            await spy.hit("exists", path)
+            await _hit("exists", path)
             return await super().exists(path)
 
-        @ue
         async def is_dir(self, path):
-            await spy.hit("is_dir", path)
+            await _hit("is_dir", path)
             return await super().is_dir(path)
 
-        @ue
         async def is_file(self, path):
-            await spy.hit("is_file", path)
+            await _hit("is_file", path)
             return await super().is_file(path)
 
-        @ue
         async def mkdir(self, path, **kw):
-            await spy.hit("mkdir", path)
+            await _hit("mkdir", path)
             return await super().mkdir(path, **kw)
 
-        @ue
         async def rmdir(self, path):
-            await spy.hit("rmdir", path)
+            await _hit("rmdir", path)
             return await super().rmdir(path)
 
-        @ue
         async def unlink(self, path):
-            await spy.hit("unlink", path)
+            await _hit("unlink", path)
             return await super().unlink(path)
 
         def list(self, path):
             return SpyLister(super().list(path), path, timeout=self.timeout)
 
-        @ue
         async def stat(self, path):
-            await spy.hit("stat", path)
+            await _hit("stat", path)
             st = await super().stat(path)
             if spy.stat_patch is not None:
                 st = spy.stat_patch(path, st)
             return st
 
-        @ue
         async def _open(self, path, *a, **kw):
-            await spy.hit("open", (path, a, kw))
+            await _hit("open", (path, a, kw))
             f = await super()._open(path, *a, **kw)
             spy.open_files[id(f)] = (str(path), a, kw)
             spy.opened += 1
             return f
 
-        @ue
         async def seek(self, file, *a, **kw):
-            await spy.hit("seek", a)
+            await _hit("seek", a)
             return await super().seek(file, *a, **kw)
 
-        @ue
         async def write(self, file, data):
-            await spy.hit("write", len(data))
+            await _hit("write", len(data))
             return await super().write(file, data)
 
-        @ue
         async def read(self, file, *a, **kw):
-            await spy.hit("read", a)
+            await _hit("read", a)
             cap = getattr(spy, "read_cap", None)
             if cap and (not a or a[0] is None or a[0] < 0 or a[0] > cap):
                 a = (cap,) + tuple(a[1:])
             return await super().read(file, *a, **kw)
 
-        @ue
         async def close(self, file):
             # the handle counts as released even if the backend's close fails
             spy.open_files.pop(id(file), None)
             spy.closed += 1
-            await spy.hit("close")
+            await _hit("close")
             return await super().close(file)
 
-        @ue
         async def rename(self, source, destination):
-            await spy.hit("rename", (source, destination))
+            await _hit("rename", (source, destination))
             return await super().rename(source, destination)
 
     SpyIO.__name__ = "Spy" + base_cls.__name__
